@@ -25,6 +25,9 @@ def spaces(tier):
             dict(family='chain3', size=3, level=1, cfg='K0', t0=['empty'], mut='none'),
             dict(family='if', size=2, level=0, cfg='K0', t0=['empty', 'file_i', 'dir_d_j'], mut='all'),
             dict(family='pairs', size=1, level=1, cfg='K0', t0=['empty'], mut='none'),
+            # the cache file in its own directory; outputs inside that directory and AT that directory
+            dict(size=2, level=1, cfg='K1', t0=['empty'], mut='none',
+                 kw=dict(paths=['a', 'k', 'k/x'], bf_modes=['ok', 'rb', 'ra'], sb_modes=['ok'])),
             dict(size=1, level=0, cfg='K0', t0=['empty', 'full', 'dir_d_j', 'file_d'], mut='all'),
             dict(size=1, level=1, cfg='K0', t0=['empty', 'full'], mut='all'),
             dict(size=1, level=2, cfg='K1', t0=['empty', 'dir_d_e'], mut='rel'),
